@@ -216,15 +216,13 @@ Definition P_NAME_ASCII : N := 1.   (* primitive.rs: serialize_name panic!("only
 (* ------------------------------------------------------------------ *)
 (** * writing operands: primitive.rs *)
 
-(* primitive.rs: serialize_name *)
-Fixpoint ser_name_body (s : bytes) : res bytes :=
-  match s with
-  | [] => Ok []
-  | c :: t =>
-      let esc := if memN c name_escaped then [92] else [] in
-      if negb (memN c name_escaped) && (name_ascii_max <? c) then Panic P_NAME_ASCII
-      else do r <- ser_name_body t; Ok (esc ++ c :: r)
-  end.
+(* primitive.rs: serialize_name — regular printable bytes other than '#' raw, everything else as #XX
+   (tables name_ser_raw_* from gen/extract_syn.py) *)
+Definition hexdigit_upper (n : N) : N := if n <? 10 then 48 + n else 55 + n.
+Definition ser_name_byte (c : N) : bytes :=
+  if (name_ser_raw_lo <=? c) && (c <=? name_ser_raw_hi) && negb (memN c name_ser_raw_except)
+  then [c] else [35; hexdigit_upper (c / 16); hexdigit_upper (c mod 16)].
+Definition ser_name_body (s : bytes) : res bytes := Ok (flat_map ser_name_byte s).
 Definition ser_name (s : bytes) : res bytes := do r <- ser_name_body s; Ok (47 :: r).
 
 Definition hexdigit (n : N) : N := if n <? 10 then 48 + n else 87 + n.
@@ -235,7 +233,7 @@ Definition hex2 (b : N) : bytes := [hexdigit (b / 16); hexdigit (b mod 16)].
 Definition ser_string (s : bytes) : bytes :=
   if existsb (fun b => string_hex_from <=? b) s
   then 60 :: flat_map hex2 s ++ [62]
-  else 40 :: flat_map (fun b => if memN b string_escaped then [92; b] else [b]) s ++ [41].
+  else 40 :: flat_map (fun b => if memN b string_escaped then [92; b] else if b =? str_ser_cr then [92; 114] else [b]) s ++ [41].
 
 (* primitive.rs: Primitive::serialize, serialize_list, Dictionary::serialize *)
 Fixpoint ser_prim (p : prim) : res bytes :=
